@@ -321,35 +321,49 @@ func rulePDF417Encoder(c *Ctx) {
 		n := NewNormer(c.P)
 		n.BindParams(fn, "codes")
 		addBits := callsTo(fn, c.P.Func("utils.(*BitList).AddBits"))
-		widths := map[int64]*ssa.Call{}
+		// module count per codeword: alternatives (17 | 18) with their conditions, whether written as
+		// two calls or as one call with a selected width
+		cond18, cond17 := cFalse, cFalse
+		var hdr *ssa.BasicBlock
+		bad := ""
 		for _, call := range addBits {
-			if k, ok := n.Norm(call.Common().Args[2]).IsConst(); ok {
-				widths[k] = call
-			}
-		}
-		if widths[17] == nil || widths[18] == nil || len(addBits) != 2 {
-			c.Check(R6, "pdf417.renderBarcode/widths", fn.Pos(), false, "17 modules per codeword, 18 for the stop pattern", fmt.Sprint(len(addBits)))
-		} else {
-			// the 18-bit call is reached iff i == len(row)-1
-			call := widths[18]
-			var hdr *ssa.BasicBlock
-			for d := call.Block(); d != nil; d = d.Idom() {
-				if phi, init, ok := loopCounter(d); ok && init == -1 {
-					n.Bind[phi] = "j"
-					hdr = d
-					break
-				}
-			}
 			if hdr == nil {
-				c.Undecided(R6, "pdf417.renderBarcode/last-column", call.Pos(), "column loop not found")
-			} else {
+				for d := call.Block(); d != nil; d = d.Idom() {
+					if idx, _, init, ok := loopIndex(d); ok && init == 0 {
+						// innermost counting loop: the column loop
+						n.Bind[idx] = "j"
+						hdr = d
+						break
+					}
+				}
 				if ld, ok := call.Common().Args[1].(*ssa.UnOp); ok {
 					if ia, ok := ld.X.(*ssa.IndexAddr); ok {
 						n.Bind[ia.X] = "row"
 					}
 				}
-				c.expectCond(R6, "pdf417.renderBarcode/last-column", call.Pos(), n.ReachCond(fn, hdr.Succs[0], call.Block()), "j + 1 == len(row) - 1")
 			}
+			if hdr == nil {
+				bad = "column loop not found"
+				break
+			}
+			reach := n.ReachCond(fn, hdr.Succs[0], call.Block())
+			for _, cs := range n.valueCases(fn, hdr.Succs[0], call.Common().Args[2], 0) {
+				k, ok := cs.val.IsConst()
+				switch {
+				case ok && k == 18:
+					cond18 = cOr(cond18, cAnd(reach, cs.cond))
+				case ok && k == 17:
+					cond17 = cOr(cond17, cAnd(reach, cs.cond))
+				default:
+					bad = "module count " + cs.val.String()
+				}
+			}
+		}
+		if bad != "" || hdr == nil {
+			c.Check(R6, "pdf417.renderBarcode/widths", fn.Pos(), false, "17 modules per codeword, 18 for the stop pattern", orOK(bad))
+		} else {
+			c.expectCond(R6, "pdf417.renderBarcode/last-column", fn.Pos(), cond18, "j == len(row) - 1")
+			c.expectCond(R6, "pdf417.renderBarcode/other-columns", fn.Pos(), cond17, "j != len(row) - 1")
 		}
 	}
 }
